@@ -4,6 +4,8 @@
 -/
 import PM.Step
 import PM.Transform
+import PM.StructEdit
+import PM.TypePlan
 import Proofs.StepToks
 import Proofs.StepMap
 import Proofs.StepMapLeft
@@ -1098,6 +1100,78 @@ theorem aroundOK_of_guard (st : Step) (h : aroundOKB st = true) : AroundOK st :=
 
 theorem gapSep_iff_guard (st : Step) : gapSepB st = true ↔ GapSep st := by
   cases st <;> simp [gapSepB, GapSep]
+
+/-! ### the side conditions hold for the replace-around steps the structure operations build -/
+
+/-- `set_node_markup` / `set_block_type`: the step built for a non-leaf node spanning `[s, e)`
+    (`s + 2 ≤ e`: an opening and a closing token) meets `AroundOK` -/
+theorem retypeStep_aroundOK (s e : Nat) (newNode : Node) (hse : s + 2 ≤ e) (hsz : 1 ≤ newNode.size) :
+    AroundOK (retypeStep s e newNode) := by
+  refine ⟨by simp [Slice.wf], ?_, ⟨by omega, by omega, by omega⟩, .inr (.inl (by omega))⟩
+  simp only [Slice.size, fsize]
+  omega
+
+/-- the content `wrap` builds has at least one token per wrapper -/
+theorem wrapContent_size (S : Schema) : ∀ (ws : List (TypeId × Attrs)) (content : List Node),
+    wrapContent S ws = .ok content → ws.length ≤ fsize content
+  | [], content, h => by simp [wrapContent] at h; subst h; simp
+  | (ty, given) :: rest, content, h => by
+    rw [wrapContent] at h
+    cases hr : wrapContent S rest with
+    | error e => rw [hr] at h; simp at h
+    | ok inner =>
+      rw [hr] at h
+      have ih := wrapContent_size S rest inner hr
+      simp only at h
+      split at h
+      · simp at h
+      · split at h
+        · simp at h
+        · cases ha : computeAttrs (S.nodeType ty).attrs given with
+          | error e => rw [ha] at h; simp at h
+          | ok a =>
+            rw [ha] at h
+            simp only at h
+            split at h
+            · split at h
+              · rename_i hemp
+                simp only [Except.ok.injEq] at h
+                subst h
+                have : inner = [] := by simpa using hemp
+                subst this
+                simp only [fsize, Node.size, List.length_cons] at ih ⊢
+                omega
+              · simp at h
+            · simp only [Except.ok.injEq] at h
+              subst h
+              simp only [fsize, Node.size, List.length_cons] at ih ⊢
+              omega
+
+/-- `wrap`: the step built for a non-empty node range (`start < end`) meets `AroundOK` -/
+theorem wrapStepR_aroundOK (S : Schema) (f t : RPos) (depth : Nat) (wrappers : List (TypeId × Attrs))
+    (st : Step) (h : wrapStepR S f t depth wrappers = .ok st)
+    (hse : ∀ s e, f.before (depth + 1) = some s → t.after (depth + 1) = some e → s < e) :
+    AroundOK st := by
+  unfold wrapStepR at h
+  cases hc : wrapContent S wrappers with
+  | error e => rw [hc] at h; simp at h
+  | ok content =>
+    rw [hc] at h
+    simp only at h
+    cases hb : f.before (depth + 1) with
+    | none => rw [hb] at h; simp at h
+    | some s =>
+      cases ha : t.after (depth + 1) with
+      | none => rw [hb, ha] at h; simp at h
+      | some e =>
+        rw [hb, ha] at h
+        simp only [Except.ok.injEq] at h
+        subst h
+        have hlt := hse s e hb ha
+        have hsz := wrapContent_size S wrappers content hc
+        refine ⟨by simp [Slice.wf], ?_, ⟨Nat.le_refl _, by omega, Nat.le_refl _⟩, .inl hlt⟩
+        simp only [Slice.size]
+        omega
 
 /-! ### the size delta for every step kind and along a history -/
 
